@@ -463,6 +463,10 @@ fn judge(input: &Input, cont_depth: usize) -> Verdict {
                         }
                     }
                     for f in chk.fails {
+                        // a world handed back by deserialization that later confuses identifiers also breaks C02
+                        if f.prop == Prop::C02 {
+                            fails.push((format!("C02:deserialized-world-confuses-identifiers ({})", f.key), f.detail.clone()));
+                        }
                         fails.push((format!("returned-world-invalid ({})", f.key), f.detail));
                     }
                     let dr = catch_unwind(AssertUnwindSafe(|| drop(ManuallyDrop::into_inner(ex))));
@@ -623,6 +627,27 @@ fn enumerate(tier: &str) -> (Vec<BaseSer>, Vec<Case>) {
             let singles = single_edits(toks, !quick);
             for e in &singles {
                 cases.push(Case { base: bi, enc, edits: vec![*e], json_idx: 0 });
+            }
+            // every pair of alterations of bookkeeping numbers (entity index / generation / allocator length): the
+            // consistent-looking corruptions (e.g. one identifier on two rows with the length adjusted) need two edits
+            {
+                let numeric: Vec<Edit> = singles
+                    .iter()
+                    .copied()
+                    .filter(|e| match e {
+                        Edit::Alter(i, _) => *i > 0 && matches!(toks[*i - 1], Token::Field("index") | Token::Field("generation") | Token::Field("length")),
+                        _ => false,
+                    })
+                    .collect();
+                for (x, e1) in numeric.iter().enumerate() {
+                    for e2 in &numeric[x + 1..] {
+                        if let (Edit::Alter(i1, _), Edit::Alter(i2, _)) = (e1, e2) {
+                            if i1 != i2 && (quick || bi >= 6) {
+                                cases.push(Case { base: bi, enc, edits: vec![*e2, *e1], json_idx: 0 });
+                            }
+                        }
+                    }
+                }
             }
             // thorough: all pairs of (non-swap) edits on the smallest bases
             if !quick && bi < 6 {
